@@ -552,7 +552,7 @@ pub fn run_miri(ctx: &Ctx, rep: &mut Report) {
         msg_call(rep, "miri-msg-trunc", &t.to_bytes());
     }
     for (t, el) in [(7u8, 32usize), (13, 32), (20, 30)] {
-        for cnt in 0..=6usize {
+        for cnt in 0..=9usize {
             if !ctx.mine((t as usize + cnt) as u64) {
                 continue;
             }
@@ -590,6 +590,24 @@ pub fn run_miri(ctx: &Ctx, rep: &mut Report) {
             if let Err(pi) = mon::call_unarmor(&s, fill) {
                 rep.violation(PID, format!("panic@{}", pi.loc), pi.msg.clone(), || mon::replay_unarmor(&s, fill, "miri-unarmor"));
             }
+        }
+    }
+    // a group whose delivery fails while unarmoring, then a stale tail and the odd "1 of 0" line;
+    // names consisting of blanks followed only by '@' padding (trim corner)
+    if ctx.mine(5) {
+        let mut hh = Hist::new();
+        hh.feed(rep, "miri-bad-armor-group", nmea_ref::mk(2, 1, Some(3), b"1X00", 0), true);
+        hh.feed(rep, "miri-bad-armor-group", nmea_ref::mk(2, 2, Some(3), b"0000", 0), true);
+        hh.feed(rep, "miri-bad-armor-group", nmea_ref::mk(3, 3, Some(3), b"wwww", 0), true);
+        hh.feed(rep, "miri-bad-armor-group", nmea_ref::mk(0, 1, None, b"13u?etPv2;0n:dDPwUM1U1Cb069D", 0), true);
+        for blanks in [1usize, 2, 19, 20] {
+            let mut bits = Bits::zeros(160);
+            bits.put(0, 6, 24);
+            bits.put(8, 30, 227006760);
+            for i in 0..blanks.min(20) {
+                bits.put(40 + 6 * i, 6, 32);
+            }
+            msg_call(rep, "miri-blank-then-at", &bits.to_bytes());
         }
     }
     // a little grammar / mutation traffic
